@@ -52,6 +52,13 @@ class NullCtx:
     """context while modules are loaded: nothing symbolic may happen"""
     loc = None
 
+    def clock_now(self, I):
+        # a module-level object may read the clock when it is constructed (import time): some instant not after
+        # the harness starts (HarnessCtx.clock_now constrains its initial clock accordingly)
+        from .values import SymInt
+        import z3
+        return SymInt(z3.Real("module_load_time"))
+
     def __getattr__(self, name):
         def f(*a, **k):
             raise Unsupported("symbolic operation (%s) at module load time" % name)
@@ -1719,7 +1726,12 @@ class Interp:
         if isinstance(a, (int, str, bytes, tuple, float)) and isinstance(b, (int, str, bytes, tuple, float)):
             # identity of immutable values is an implementation detail; treat as ==
             # only where CPython guarantees it (small ints / interned) is not modelled
-            return type(a) is type(b) and a == b
+            if a is b:
+                return True
+            try:
+                return type(a) is type(b) and a == b
+            except Unsupported:
+                return False        # distinct tuples holding symbolic items are distinct objects
         return a is b
 
     def e_Call(self, e, frame):
